@@ -76,6 +76,7 @@ TypeOf(name) ==
       [] name = "F31" -> Struct(<<Fld(n_k, "attr", STR), Fld(n_text, "text", STR)>>)
       [] name = "F32" -> F32T
       [] name = "F33" -> Struct(<<Fld(<<119>>, "elem", F32T)>>)
+      [] name = "F34" -> Struct(<<Fld(<<112>>, "elem", List(NUM)), Fld(<<120>>, "elem", List(NUM)), Fld(<<113>>, "elem", List(NUM))>>)   \* p is a PAIR (fixed size)
       [] name = "H01" -> Struct(<<Fld(n_m, "elem", [t |-> "map"])>>)
       [] name = "H07" -> Struct(<<Fld(n_value, "value", List(Opt(CHOICE)))>>)     \* items that may write nothing inside mixed content
       [] OTHER -> [t |-> "unknown"]       \* outside the schema language: the model has no opinion (SerTree = Fail)
@@ -104,6 +105,7 @@ RootBytes(name) ==
       [] name = "F31" -> <<70,51,49>>
       [] name = "F32" -> <<70,51,50>>
       [] name = "F33" -> <<70,51,51>>
+      [] name = "F34" -> <<70,51,52>>
       [] name = "F27" -> <<70,50,55>>
       [] name = "F28" -> <<70,50,56>>
       [] name = "H01" -> <<72,48,49>>
@@ -124,6 +126,10 @@ StrSmall == { <<>>, <<97>>, <<60>> }
 StrHostile == StrRT \cup { <<32>>, <<32, 97>>, <<10>>, <<0>>, <<62>>, <<60, 97, 62>> }
 \* items of space-separated lists: non-empty, no XML whitespace (src/de/mod.rs docs)
 StrItem == { <<97>>, <<60>>, <<38>>, <<195, 169>>, <<34>> }
+\* In ATTRIBUTE position the serializer writes white space inside an item as character references and the deserializer splits
+\* before unescaping, so such items come back; in text position the text is unescaped first (the module documentation says
+\* list items never contain white space), so they are generated for attribute lists only.
+StrItemWs == { <<97, 13, 98>>, <<32>>, <<9, 10>> }
 Nums == { <<48>>, <<55>>, <<52,50,57,52,57,54,55,50,57,53>> }
 
 S(x) == [s |-> x]
@@ -176,7 +182,7 @@ ValuesOf(name, Pl, mode) ==       \* mode "rt": the documented round-trippable d
                             xs \in Seqs({S(<<97>>), S(<<60>>)}, 2),
                             ys \in Seqs({O(<<<<n_a, A(w)>>>>) : w \in Seqs({S(<<97>>)}, 1)}, 2), zs \in Seqs({Nm(<<55>>)}, 2)}
       [] name = "F24" -> {O(<<<<<<64>> \o n_items, A(xs)>>, <<<<64>> \o n_one, S(a)>>>>) :
-                            xs \in Seqs({S(s) : s \in StrItem \cup {<<39>>, <<62>>}}, 2), a \in {<<>>, <<34>>, <<60>>}}
+                            xs \in Seqs({S(s) : s \in StrItem \cup StrItemWs \cup {<<39>>, <<62>>}}, 2), a \in {<<>>, <<34>>, <<60>>}}
       [] name = "F25" ->
             LET C3 == {[u |-> n_One]} \cup {[v |-> n_Name, x |-> S(s)] : s \in {<<>>, <<97>>, <<60>>}}
                       \cup {[v |-> n_Num, x |-> Nm(<<55>>)]} \cup {[v |-> n_text, x |-> S(s)] : s \in {<<97>>, <<38>>}} IN
@@ -205,6 +211,8 @@ ValuesOf(name, Pl, mode) ==       \* mode "rt": the documented round-trippable d
                             ys \in Seqs({A(zs) : zs \in Seqs({S(<<97>>), S(<<60>>)}, 2)}, 2)}
       [] name = "F32" -> F32Vals
       [] name = "F33" -> {O(<<<<<<119>>, x>>>>) : x \in F32Vals}
+      [] name = "F34" -> {O(<<<<<<112>>, A(<<Nm(<<49>>), Nm(<<50>>)>>)>>, <<<<120>>, A(xs)>>, <<<<113>>, A(ys)>>>>) :
+                            xs \in Seqs({Nm(<<55>>)}, 2), ys \in Seqs({Nm(<<53>>)}, 2)}
       [] name = "H07" ->
             LET It == {None, [u |-> n_One], [v |-> n_text, x |-> S(<<97, 98, 99>>)]} IN
             \* (two text items separated only by absent items would be written as one text: outside what can be told apart)
@@ -217,5 +225,5 @@ ValuesOf(name, Pl, mode) ==       \* mode "rt": the documented round-trippable d
 \* root tags passed to the serializer (to_string_with_root); the default is the type name
 HostileRoots == { <<120, 46, 121>>, <<120, 45, 49>>, <<120, 194, 183>>, <<97, 47>>, <<97, 47, 98>>, <<>>, <<60>>, <<97, 32, 98>>, <<49, 97>>, <<97, 62>>, <<195, 169>>, <<120, 58, 121>>, <<45, 97>>, <<114>> }
 
-RTTypes == {"F01", "F02", "F03", "F04", "F05", "F07", "F08", "F11", "F15", "F16", "F17", "F18", "F19", "F20", "F22", "F23", "F24", "F25", "F26", "F27", "F28", "F29", "F30", "F31", "F32", "F33"}
+RTTypes == {"F01", "F02", "F03", "F04", "F05", "F07", "F08", "F11", "F15", "F16", "F17", "F18", "F19", "F20", "F22", "F23", "F24", "F25", "F26", "F27", "F28", "F29", "F30", "F31", "F32", "F33", "F34"}
 =============================================================================
